@@ -31,9 +31,9 @@ inductive Step where
   | clone (dst src : Nat)                                       -- copy.deepcopy / pickle round trip of a converter
   | dups (recs : List Record)                                   -- the listing of a strict construction
   | loadPm (dst : Nat) (pm : List (Str × Str)) (delim : Str) (strict : Bool)
-  | loadPriority (dst : Nat) (data : List (Str × List Str))
-  | loadReverse (dst : Nat) (rpm : List (Str × Str))
-  | loadJsonld (dst : Nat) (ctx : List (Str × Loaders.JTerm))
+  | loadPriority (dst : Nat) (data : List (Str × List Str)) (delim : Str := [58])   -- **kwargs: delimiter=
+  | loadReverse (dst : Nat) (rpm : List (Str × Str)) (delim : Str := [58])
+  | loadJsonld (dst : Nat) (ctx : List (Str × Loaders.JTerm)) (delim : Str := [58])
   | loadUpgrade (dst : Nat) (pm : List (Str × Str))             -- Converter(upgrade_prefix_map(pm))
   | upgrade (pm : List (Str × Str))                             -- the records upgrade_prefix_map returns
 deriving Repr, Inhabited
@@ -165,9 +165,9 @@ def Step.exec (fold : Str → Str) (s : Slots) : Step → Slots × Val
       let d := if du.isEmpty then duplicates Record.allP recs else du
       (s, .strs (d.map fun (r1, r2, x) => r1.pfx ++ [1114112] ++ r2.pfx ++ [1114112] ++ x))
   | .loadPm dst pm delim strict => initInto s dst (.ok (Loaders.prefixMapRecords pm)) delim strict
-  | .loadPriority dst data => initInto s dst (Loaders.priorityRecords data) [58] true
-  | .loadReverse dst rpm => initInto s dst (Loaders.reverseRecords rpm) [58] true
-  | .loadJsonld dst ctx => initInto s dst ((Loaders.jsonldPrefixMap ctx).map Loaders.prefixMapRecords) [58] true
+  | .loadPriority dst data delim => initInto s dst (Loaders.priorityRecords data) delim true
+  | .loadReverse dst rpm delim => initInto s dst (Loaders.reverseRecords rpm) delim true
+  | .loadJsonld dst ctx delim => initInto s dst ((Loaders.jsonldPrefixMap ctx).map Loaders.prefixMapRecords) delim true
   | .loadUpgrade dst pm => initInto s dst (Loaders.upgradePrefixMap pm) [58] true
   | .upgrade pm =>
     match Loaders.upgradePrefixMap pm with
@@ -226,8 +226,8 @@ def step (j : Json) : D Step := do
       match (← x.getArr?).toList with
       | [k, v] => pure (← str k, ← strs v)
       | _ => throw "pair expected"
-    pure (.loadPriority (← nat "dst") items)
-  | "load_reverse" => pure (.loadReverse (← nat "dst") (← pairs (← j.getObjVal? "data")))
+    pure (.loadPriority (← nat "dst") items (← str (fieldD j "delim" (.arr #[58]))))
+  | "load_reverse" => pure (.loadReverse (← nat "dst") (← pairs (← j.getObjVal? "data")) (← str (fieldD j "delim" (.arr #[58]))))
   | "load_jsonld" => do
     let items ← (← (← j.getObjVal? "data").getArr?).toList.mapM fun x => do
       match (← x.getArr?).toList with
@@ -241,7 +241,7 @@ def step (j : Json) : D Step := do
             | .error _ => pure Loaders.JTerm.other
         pure (← str k, t)
       | _ => throw "pair expected"
-    pure (.loadJsonld (← nat "dst") items)
+    pure (.loadJsonld (← nat "dst") items (← str (fieldD j "delim" (.arr #[58]))))
   | "load_upgrade" => pure (.loadUpgrade (← nat "dst") (← pairs (← j.getObjVal? "data")))
   | "upgrade" => pure (.upgrade (← pairs (← j.getObjVal? "data")))
   | _ => throw s!"unknown op {op}"
